@@ -17,6 +17,7 @@ LEVEL_TEXT = ("Held on every generated scenario of the run: uniquely tagged entr
               "stop-offers, acknowledgements, find answers) of running instances; the wire log must contain every queued entry exactly "
               "once, per destination in queue order, within the timeout, never mixed across destinations")
 LEVEL_NOTE = "trusts pv/refwire.py for decoding; queue instants are taken from a wrapper on the public ServiceAnnouncer.queue_send (its evaluations are counted)"
+TIEBREAK_VARIANTS = True  # thorough tier: some shards run equal-deadline timers LIFO / in seeded random order
 RULE = (
     "direct part: 5-80 queue_send calls with unique (service, instance) tags, destination in {multicast, 3 unicast peers incl. IPv6}, "
     "burst sizes 1-40, options on some entries, placed at random instants or around the close of the destination's open collection "
